@@ -1,4 +1,98 @@
-import SafeC.Models.Copy
-/-! Property theorems for C07 (see DESIGN.md §4). -/
+import SafeC.Proofs.CopyOverlap
+import SafeC.Proofs.CopyDisjoint
+/-!
+# C07 — overlapping operands are detected
+
+For strcpy_s / wcscpy_s and every relative placement of `src` and `dest`:
+* `*_overlap`: whenever the characters a plain strcpy would write (`dest[0..n]`) and read
+  (`src[0..n]`) intersect, and the meeting point lies inside dest, the call reports ESOVRLP, exactly
+  once, with dest cleared and nothing outside dest touched — never a silently corrupted copy;
+* `*_disjoint_not_rejected`: operands that are disjoint are never rejected as overlapping.
+The FULL statement also asks that a *short* source lying inside dest's dmax extent behind the copied
+characters be rejected; with null-slack the code accepts it and the slack fill then zeroes the source
+(`slack-fill-destroys-source`, known finding) — `strcpy_s_C07_witness` is that excluded point.
+The memmove family ("exactly the bytes a copy through a temporary would") is decided by
+correspondence only until `mem_prim_move` is modelled (see evidence: unmodelled functions).
+-/
 namespace SafeC.Props.C07
+open SafeC Gen
+
+theorem strcpy_s_overlap (cfg : Cfg) (dest dmax src n : Nat) (st : St)
+    (hall : ∀ a, st.mapped a = true ∧ st.rd a = true)
+    (hd : dest ≠ 0) (hs : src ≠ 0) (hne : dest ≠ src) (hpos : 0 < dmax) (hle : dmax ≤ RSIZE_MAX_STR)
+    (hrw : RW st dest dmax)
+    (hnz : ∀ j, j < n → st.data (src+j) ≠ 0)
+    (hg : (if dest < src then src - dest else dest - src) ≤ n)
+    (hgd : (if dest < src then src - dest else dest - src) < dmax) :
+    ∃ st', exec (strcpy_s cfg dest dmax src none) st = .ok (ESOVRLP, st') ∧
+      st'.strays = st.strays ∧
+      st'.events = st.events ++ [.handler .str ESOVRLP] ∧
+      st'.data dest = 0 ∧
+      (cfg.slack = true → ∀ i, i < dmax → st'.data (dest + i) = 0) ∧
+      (∀ a, ¬ (dest ≤ a ∧ a < dest + dmax) → st'.data a = st.data a) :=
+  strcpyG_overlap _ cfg dest dmax src n st hall hd hs hne hpos hle hrw hnz hg hgd
+
+theorem wcscpy_eq (cfg : Cfg) (dest dmax src : Nat) :
+    wcscpy_s cfg dest dmax src none = strcpyG RSIZE_MAX_WSTR cfg dest dmax src none := by
+  unfold wcscpy_s strcpyG chkDmaxClearW chkDmaxClear chkDmaxClearG failS
+  rfl
+
+theorem wcscpy_s_overlap (cfg : Cfg) (dest dmax src n : Nat) (st : St)
+    (hall : ∀ a, st.mapped a = true ∧ st.rd a = true)
+    (hd : dest ≠ 0) (hs : src ≠ 0) (hne : dest ≠ src) (hpos : 0 < dmax) (hle : dmax ≤ RSIZE_MAX_WSTR)
+    (hrw : RW st dest dmax)
+    (hnz : ∀ j, j < n → st.data (src+j) ≠ 0)
+    (hg : (if dest < src then src - dest else dest - src) ≤ n)
+    (hgd : (if dest < src then src - dest else dest - src) < dmax) :
+    ∃ st', exec (wcscpy_s cfg dest dmax src none) st = .ok (ESOVRLP, st') ∧
+      st'.strays = st.strays ∧
+      st'.events = st.events ++ [.handler .str ESOVRLP] ∧
+      st'.data dest = 0 ∧
+      (cfg.slack = true → ∀ i, i < dmax → st'.data (dest + i) = 0) ∧
+      (∀ a, ¬ (dest ≤ a ∧ a < dest + dmax) → st'.data a = st.data a) := by
+  rw [wcscpy_eq]
+  exact strcpyG_overlap _ cfg dest dmax src n st hall hd hs hne hpos hle hrw hnz hg hgd
+
+/-- disjoint operands are never rejected as overlapping (they succeed or fail with ESNOSPC) -/
+theorem strcpy_s_disjoint_not_rejected (cfg : Cfg) (dest dmax src n : Nat) (st : St)
+    (hd : dest ≠ 0) (hs : src ≠ 0) (hpos : 0 < dmax) (hle : dmax ≤ RSIZE_MAX_STR)
+    (hrw : RW st dest dmax) (hsrc : SrcStr st src n) (hdisj : Disjoint dest dmax src n) :
+    ∃ code st', exec (strcpy_s cfg dest dmax src none) st = .ok (code, st') ∧ code ≠ ESOVRLP := by
+  obtain ⟨code, st', he, _, _, _, _, _, hok, hfail⟩ :=
+    strcpyG_disjoint _ cfg dest dmax src n st hd hs hpos hle hrw hsrc hdisj
+  refine ⟨code, st', he, ?_⟩
+  by_cases h : n < dmax
+  · rw [(hok h).1]; decide
+  · rw [(hfail (by omega)).1]; decide
+
+theorem strcat_s_disjoint_not_rejected (cfg : Cfg) (dest dmax src dl n : Nat) (st : St)
+    (hd : dest ≠ 0) (hs : src ≠ 0) (hpos : 0 < dmax) (hle : dmax ≤ RSIZE_MAX_STR)
+    (hrw : RW st dest dmax) (hsrc : SrcStr st src n) (hdisj : Disjoint dest dmax src n)
+    (hdl : dl < dmax) (hdnz : ∀ j, j < dl → st.data (dest+j) ≠ 0) (hdnul : st.data (dest+dl) = 0) :
+    ∃ code st', exec (strcat_s cfg dest dmax src none) st = .ok (code, st') ∧ code ≠ ESOVRLP := by
+  obtain ⟨code, st', he, _, _, _, _, _, hok, hfail⟩ :=
+    strcatG_disjoint _ cfg dest dmax src dl n st hd hs hpos hle hrw hsrc hdisj hdl hdnz hdnul
+  refine ⟨code, st', he, ?_⟩
+  by_cases h : dl + n < dmax
+  · rw [(hok h).1]; decide
+  · rw [(hfail (by omega)).1]; decide
+
+/-- the excluded point of the full statement: `strcpy_s(d, 4, d+2)` with `d+2 = "a"`, null-slack:
+EOK, and the source's first cell has been zeroed by the slack fill -/
+def wSt : St :=
+  { data := fun a => if a = 102 then 97 else if a = 103 then 0 else 88
+    mapped := fun _ => true, rd := fun _ => true
+    wr := fun a => decide (100 ≤ a ∧ a < 104) }
+
+/-- return code and one cell of the final memory (decidable observation of a run) -/
+def observe (r : Except Fault (Nat × St)) (a : Nat) : Option (Nat × Nat) :=
+  match r with
+  | .ok (c, s) => some (c, s.data a)
+  | .error _ => none
+
+theorem strcpy_s_C07_witness :
+    wSt.data 102 = 97 ∧
+    observe (exec (strcpy_s { slack := true } 100 4 102 none) wSt) 102 = some (EOK, 0) := by
+  decide
+
 end SafeC.Props.C07
